@@ -91,6 +91,29 @@ def gen_desc(rng, tier, force=None):
 USE_KINDS = ["inst", "meta", "fields", "helper"]
 
 
+def valid(desc, uses):
+    """every use works on the eagerly bootstrapped classes (otherwise the case says nothing
+    about bootstrapping; e.g. a spec subclass of a class with a defaulted init=False attribute
+    cannot be constructed at all today - DESIGN section 5 row 15, property C09)"""
+    import c19_impl as I
+    try:
+        outs, _, _ = I.run_eager(desc, uses, I.Interner())
+    except BaseException:  # noqa: BLE001
+        return False
+    return all(o[0] == 1 for o in outs)
+
+
+def gen_valid(rng, tier, nthreads=None):
+    for _ in range(200):
+        d = gen_desc(rng, tier)
+        k = len(d["classes"])
+        every = [[kind, t] for kind in USE_KINDS for t in list(range(k)) + (["sub"] if d["sub"] else [])]
+        if not valid(d, every):
+            continue
+        return d
+    raise RuntimeError("no valid class description generated")
+
+
 def gen_uses(rng, desc, nthreads):
     k = len(desc["classes"])
     uses = []
@@ -178,9 +201,9 @@ def schedules_for(rng, desc, uses, pool, tier, budget):
                         for h in range(n):
                             if h != g:
                                 two_all.append({"kind": "preempt", "first": f, "switch": [[k1, g], [k2, h]]})
-    exhaustive1 = len(one) <= budget
+    exhaustive1 = len(one) <= max(budget // 2, 1)
     if not exhaustive1:
-        one = rng.sample(one, budget)
+        one = rng.sample(one, budget // 2)
     rest = max(0, budget - len(one))
     if two_all is not None and len(two_all) <= rest:
         two, exhaustive2 = two_all, True
@@ -221,7 +244,7 @@ def shrink(desc, uses, pol, code, pool, rng):
         res = [r for r in res]
         bad, _, _ = evaluate(res, tag="s")
         for i in sorted(bad):
-            if bad[i] == code:
+            if bad[i] == code and res[i]["eager_ok"]:
                 return pols[i]
         return None
 
@@ -278,10 +301,19 @@ def replay_case(r, pool):
 
 
 def main(tier, replay=None):
+    pool = ProcessPoolExecutor(max_workers=JOBS)
+    try:
+        list(pool.map(warm, range(JOBS)))
+        return main2(tier, replay, pool)
+    finally:
+        for pr in list(getattr(pool, "_processes", {}).values()):
+            pr.kill()
+        pool.shutdown(wait=False, cancel_futures=True)
+
+
+def main2(tier, replay, pool):
     chk = Check("C19", tier)
     t0 = time.time()
-    pool = ProcessPoolExecutor(max_workers=JOBS)
-    list(pool.map(warm, range(JOBS)))
     if replay:
         r = json.load(open(replay))
         if r.get("kind") in ("proof", "coq-eval"):
@@ -302,7 +334,7 @@ def main(tier, replay=None):
     # 1. sequential trigger independence: every trigger kind x every target, one thread
     n_seq = 25 if quick else 150
     for _ in range(n_seq):
-        d = gen_desc(rng, tier)
+        d = gen_valid(rng, tier)
         k = len(d["classes"])
         for kind in USE_KINDS:
             for tgt in list(range(k)) + (["sub"] if d["sub"] else []):
@@ -314,11 +346,11 @@ def main(tier, replay=None):
                 jobs.append((d, [[kind, 0], [rng.choice(USE_KINDS), k - 1]], {"kind": "preempt", "first": 0, "switch": []}))
                 meta.append(("seq-parent-first", 2))
     # 2. concurrent: classes x uses x schedules
-    n_cfg = 10 if quick else 60
-    budget = 700 if quick else 9000
+    n_cfg = 14 if quick else 60
+    budget = 1500 if quick else 12000
     sched_info = []
     for ci in range(n_cfg):
-        d = gen_desc(rng, tier)
+        d = gen_valid(rng, tier)
         nth = 2 if (quick or ci % 3) else 3
         u = gen_uses(rng, d, nth)
         if ci == 0:  # the configuration of the pre-fix race, always present
